@@ -26,9 +26,16 @@ def tsOrdered (v : Vars) : Bool :=
 /-- A variable snapshot with the place it was taken. -/
 inductive Sample where
   | hook (h : Hook) (v : Vars) (marksSeen : List (String × Bool))   -- a probe call awaited at its own trigger point
-  | endReq (q : Req) (before after : St) (v : Vars) (rn : Nat)
+  | endReq (q : Req) (before after : St) (v : Vars) (rn : Nat) (forced : Bool) (stopDone : Bool)
   | runStarted (n t : Nat)
   | runEvent (tr status : String) (n t : Nat)
+
+/-- The request went through the API glue, began in RUNNING and ended in ERROR without enter_ERROR ever
+    starting: the requested transition failed, the GO_ERROR that follows was itself cancelled by a
+    critical hook (before_GO_ERROR / leave_RUNNING), and the glue forced the state with `Sm.SetState("ERROR")`. -/
+def forcedError (q : Req) (before after : St) (seg : List IEv) : Bool :=
+  (match q with | .control .. => true | _ => false) && before == .RUNNING && after == .ERROR &&
+    !seg.any (isMark (Moment.enter .ERROR).name false)
 
 /-- Flatten the trace into samples, keeping for hook samples the markers seen so far in their request. -/
 def samplesOf (hooks : List Hook) : List Req → St → List (List IEv) → List Sample
@@ -42,7 +49,8 @@ def samplesOf (hooks : List Hook) : List Req → St → List (List IEv) → List
         | none => none
       | .runEvent "START_ACTIVITY" "STARTED" n t => some (Sample.runStarted n t)
       | .runEvent tr st n t => some (Sample.runEvent tr st n t)
-      | .reqEnd _ st rn v _ _ => (St.parse? st).map fun a => Sample.endReq q s a v rn
+      | .reqEnd _ st rn v _ _ => (St.parse? st).map fun a => Sample.endReq q s a v rn (forcedError q s a seg)
+          (seg.any (isMark (Moment.after .STOP_ACTIVITY).name true))
       | _ => none)
     let after := match seg.getLast? with
       | some (.reqEnd _ st ..) => (St.parse? st).getD s
@@ -62,31 +70,37 @@ def tvStable (old new : TV) : Bool :=
   | .val a => new == .val a      -- once set, unchanged within the run
   | _ => true
 
-/-- Walk the samples. -/
-def walk : RunCtx → List Sample → Bool
+/-- Walk the samples. `strict = false` leaves out clause (6) for requests that forced the state to ERROR
+    (the excluded hypothesis of `C10_end_stamps_partial`, known finding `run_end_missing_after_forced_error`). -/
+def walk (strict : Bool) : RunCtx → List Sample → Bool
   | _, [] => true
   | c, .runStarted n t :: rest =>
     -- numbers are fresh and increasing
     c.seenNums.all (· < n) &&
-    walk { n := n, t0 := t, active := true, last := { rnVar := some n, sosor := .val t, eosor := .empty, soeor := .empty, eoeor := .empty },
-           seenNums := n :: c.seenNums } rest
+    walk strict { n := n, t0 := t, active := true, last := { rnVar := some n, sosor := .val t, eosor := .empty, soeor := .empty, eoeor := .empty },
+                  seenNums := n :: c.seenNums } rest
   | c, .runEvent _ _ n _ :: rest =>
     -- every other run event carries the current run's number (0 once the run is over)
-    (n == c.n || n == 0) && walk c rest
+    (n == c.n || n == 0) && walk strict c rest
   | c, .hook h v marks :: rest =>
     let inBeforeStart := h.trig = .before .START_ACTIVITY
+    -- the STOP of this run has reached the end of after_STOP_ACTIVITY earlier in this request (only the API
+    -- glue goes on after that, with GO_ERROR, when the STOP reported a hook failure): the run is over
+    let over := marks.contains ((Moment.after .STOP_ACTIVITY).name, true)
     -- (1) negative-weight before_START hooks do not see the new number; the others see number and SOSOR
     (if inBeforeStart ∧ h.tw < 0 then true
+     else if c.active && over then v.rnVar == none      -- …and its number is gone
      else if c.active then
        v.rnVar == some c.n && v.sosor == .val c.t0 &&
        -- (5)/(7) stamps only ever go from empty to set within a run, and are ordered
        tvStable c.last.eosor v.eosor && tvStable c.last.soeor v.soeor && tvStable c.last.eoeor v.eoeor && tsOrdered v
      else true) &&
-    -- after_STOP_ACTIVITY's last hooks still belong to the run; it ends with the request
-    (let _ := marks; true) &&
-    walk (if c.active ∧ !(inBeforeStart ∧ h.tw < 0) then { c with last := v } else c) rest
-  | c, .endReq q before after v rn :: rest =>
-    let stopped := (match q with | .try_ .STOP_ACTIVITY .. | .control .STOP_ACTIVITY .. => true | _ => false) && before == .RUNNING && after == .CONFIGURED
+    walk strict (if c.active ∧ !over ∧ !(inBeforeStart ∧ h.tw < 0) then { c with last := v } else c) rest
+  | c, .endReq q before after v rn forced stopDone :: rest =>
+    -- the STOP went through to the end of after_STOP_ACTIVITY (state CONFIGURED — or ERROR, when the API glue
+    -- answered a failure reported at enter_/after_ with GO_ERROR)
+    let stopped := (match q with | .try_ .STOP_ACTIVITY .. | .control .STOP_ACTIVITY .. => true | _ => false) && before == .RUNNING &&
+      (after == .CONFIGURED || stopDone)
     tsOrdered v &&
     (if c.active then
       tvStable c.last.eosor v.eosor && tvStable c.last.soeor v.soeor && tvStable c.last.eoeor v.eoeor &&
@@ -94,12 +108,16 @@ def walk : RunCtx → List Sample → Bool
       -- (3) after a completed STOP the number is gone; otherwise it is still this run's
       (if stopped then v.rnVar == none && rn == 0 && v.lastRn == some c.n else (v.rnVar == some c.n)) &&
       -- (6) however the run ended, both end stamps are set once the environment has left RUNNING
-      (!(before == .RUNNING && after != .RUNNING) || (v.soeor.isVal && v.eoeor.isVal))
+      (!(before == .RUNNING && after != .RUNNING) || (!strict && forced) || (v.soeor.isVal && v.eoeor.isVal))
      else true) &&
-    walk (if c.active then { c with last := v, active := !stopped && c.active } else c) rest
+    walk strict (if c.active then { c with last := v, active := !stopped && c.active } else c) rest
 
 def specC10 (hooks : List Hook) (reqs : List Req) (tr : ITrace) : Bool :=
-  walk {} (samplesOf hooks reqs .STANDBY (segments tr []))
+  walk true {} (samplesOf hooks reqs .STANDBY (segments tr []))
+
+/-- Spec.C10 without the end-stamp demand on requests that forced the state to ERROR. -/
+def specC10Relaxed (hooks : List Hook) (reqs : List Req) (tr : ITrace) : Bool :=
+  walk false {} (samplesOf hooks reqs .STANDBY (segments tr []))
 
 /-- Excluded hypothesis of the "set at most once" theorem (known finding
     `end_stamp_rewritten_after_failed_teardown`): no teardown whose task release fails. -/
